@@ -112,10 +112,22 @@ def check_process_input(eng, ctx):
            'self.state must be assigned the cell\'s target before func() '
            'runs (%d call paths)' % n_b, node=fi.node)
     # (c) ProtocolError from the side effect => CLOSED, re-raised
+    # (whatever its class: StreamClosedError and the other subclasses are
+    # ProtocolErrors too, a handler of their own in front of the general one
+    # must close the stream as well; and one that escapes uncaught because
+    # the handler was narrowed has not closed it either)
+    def proto(names):
+        return any(eng.m.exc_is_subclass(n, 'ProtocolError') for n in names)
     pe = [p for p in paths if any(
-        e.kind == 'catch' and 'ProtocolError' in e.names and
+        e.kind == 'catch' and e.frame == fi.qual and proto(e.names) and
         'KeyError' not in e.names for e in p.events)]
-    ok_c = bool(pe) and all(
+    esc = [p for p in paths if p.exit == 'raise' and
+           p.exc.get('via_call') is not None and
+           p.exc['via_call'].frame == fi.qual and
+           not cm.is_call_to(p.exc['via_call'], 'isinstance') and
+           proto(p.exc['names']) and not any(
+               e.kind == 'catch' and e.frame == fi.qual for e in p.events)]
+    ok_c = bool(pe) and not esc and all(
         p.exit == 'raise' and any(
             e.kind == 'write' and e.attr == 'state' and
             cm.enum_name(e.value) == 'CLOSED' for e in p.events)
